@@ -1,6 +1,7 @@
 import SimuVerif.Lemmas.BroadPhaseGeom
 import SimuVerif.Lemmas.BroadPhaseList
 import Mathlib.Tactic.NormNum
+import Mathlib.Data.Rat.Floor
 /-
   C06 — contact detection finds every node–face pair within the interaction range.
 
@@ -279,6 +280,9 @@ theorem voxel_complete (S : Setup fn δ pad vs) (fs : List (BFace R)) (f : BFace
 
 /-! ### what the voxels hold, and the pairs handed to the rules -/
 
+theorem range_le (x0 x1 x : Nat) (h01 : x0 ≤ x1) (h0 : x0 ≤ x) (h1 : x < x0 + loopLen x0 x1) : x ≤ x1 := by
+  unfold loopLen at h1; omega
+
 /-- entry `i` of the records is the padded box of face `i` -/
 theorem rec_of_mem_zipIdx (pad : R) (fs : List (BFace R)) (ri : FaceRec R × Nat) (h : ri ∈ (faceRecs pad fs).zipIdx) :
     ∃ (hi : ri.2 < fs.length), ri.1 = ⟨fs[ri.2].cell, faceBox pad fs[ri.2].a fs[ri.2].b fs[ri.2].c⟩ ∧
@@ -303,8 +307,8 @@ theorem ids_nodup (S : Setup fn δ pad vs) (fs : List (BFace R)) (f : BFace R) (
   intro g
   obtain ⟨-, hle, hlt, -⟩ := face_voxels_in_range (inf := inf) S fs f hf
   apply nodup_voxelIds
-  · intro x h0 h1; unfold loopLen at h1; have := hle.1; have := hlt.1; omega
-  · intro y h0 h1; unfold loopLen at h1; have := hle.2.1; have := hlt.2.1; omega
+  · intro x h0 h1; exact lt_of_le_of_lt (range_le _ _ _ hle.1 h0 h1) hlt.1
+  · intro y h0 h1; exact lt_of_le_of_lt (range_le _ _ _ hle.2.1 h0 h1) hlt.2.1
 
 /-- **voxel_content**: after `store_face_in_uspg`, voxel `j` holds exactly the faces whose range contains `j`,
     each once, the most recently registered (largest global id) first -/
@@ -400,7 +404,7 @@ theorem term_eq (S : Setup fn δ pad vs) (fs : List (BFace R)) (n : BNode R) (ru
       have hnd := ids_nodup (inf := inf) S fs fs[ri.2] hf
       have hb : ri.1.box = faceBox pad fs[ri.2].a fs[ri.2].b fs[ri.2].c := by rw [e]
       rw [hb, List.count_eq_one_of_mem hnd hv, hbox]
-      simp [hc]
+      simp [hc, one_nsmul]
     · rw [hzero ri.2 hi hw]; simp
   · simp [hc]
 
@@ -474,7 +478,8 @@ end grid
 /-! ### the statements are not vacuous (ℚ): the corpus tissue of the past failure -/
 section nonvacuous
 /-- two unit cubes stacked in z at (10,10,10) and (10,10,12.25), `l_min = 1/2`, both cut-offs `1/4`: padded extent in z
-    = 4 = two voxels of size 2; one face of each is enough here -/
+    = 4 = two voxels of size 2; the bottom and the top face of the first cube and the top face of the second are enough here -/
+def fA0 : BFace ℚ := ⟨0, ⟨10, 10, 10⟩, ⟨10, 11, 10⟩, ⟨11, 10, 10⟩⟩
 def fA : BFace ℚ := ⟨0, ⟨10, 10, 11⟩, ⟨11, 10, 11⟩, ⟨10, 11, 11⟩⟩
 def fB : BFace ℚ := ⟨1, ⟨10, 10, 13 + 1/4⟩, ⟨11, 10, 13 + 1/4⟩, ⟨10, 11, 13 + 1/4⟩⟩
 def fnQ : Fn ℚ := { sqrt := id, ln := id, exp := id, acos := id, floor := fun x => ⌊x⌋ }
@@ -487,12 +492,12 @@ example : Within (1/4 : ℚ) ⟨10 + 1/4, 10 + 1/4, 11 + 1/4⟩ fA :=
     norm_num [fA, baryPt, V3.normSq_def]⟩
 example : cellTest 1 fA.cell := by decide
 /-- the face box that touches the global maximum: its last voxel is 1 of 2 (the unclamped floor is 2) -/
-example : (dims fnQ 0 2 (1/4 : ℚ) 1000 (faceRecs (1/4) [fA, fB])).nz = 2 ∧
-    (faceRange fnQ (dims fnQ 0 2 (1/4 : ℚ) 1000 (faceRecs (1/4) [fA, fB])) (faceBox (1/4) fB.a fB.b fB.c)).z1 = 1 ∧
-    ⌊((faceBox (1/4 : ℚ) fB.a fB.b fB.c).hiz - (dims fnQ 0 2 (1/4 : ℚ) 1000 (faceRecs (1/4) [fA, fB])).min_z) / 2⌋ = 2 := by
+example : (dims fnQ 0 2 (1/4 : ℚ) 1000 (faceRecs (1/4) [fA0, fA, fB])).nz = 2 ∧
+    (faceRange fnQ (dims fnQ 0 2 (1/4 : ℚ) 1000 (faceRecs (1/4) [fA0, fA, fB])) (faceBox (1/4) fB.a fB.b fB.c)).z1 = 1 ∧
+    ⌊((faceBox (1/4 : ℚ) fB.a fB.b fB.c).hiz - (dims fnQ 0 2 (1/4 : ℚ) 1000 (faceRecs (1/4) [fA0, fA, fB])).min_z) / 2⌋ = 2 := by
   refine ⟨?_, ?_, ?_⟩ <;>
-    norm_num [dims, gridDims, globalBox, globalFinish, globalStep, faceRecs, faceBox, faceRange, fA, fB, fnQ, cceil, cmin, cmax,
-      Int.floor_eq_iff]
+    norm_num [dims, gridDims, globalBox, globalFinish, globalStep, faceRecs, faceBox, faceRange, fA0, fA, fB, fnQ, cceil, cmin, cmax,
+      Int.floor_eq_iff] <;> rfl
 end nonvacuous
 
 end Simu.C06
